@@ -18,6 +18,9 @@ package main
 //   - delete hooks fired on the blank join value by Association().Replace (key 0-0) are not judged;
 //   - association mode (append / replace) is a sequence of operations: under a fault only "error returned + no later
 //     phase for the join records" is demanded, not the roll-back of the earlier steps;
+//   - CreateInBatches is a sequence of creates in one transaction: before/after phases and "no INSERT after a failed
+//     before-hook" are per batch and not judged across batches; once-per-record, values stored, one transaction and the
+//     complete roll-back are;
 //   - hooks of the related (element) models are judged only for "at most once per phase" here (c13_graphs.go owns them).
 
 import (
@@ -190,6 +193,9 @@ type c13r6Case struct {
 	Ctx      string `json:"ctx,omitempty"` // "", usertx
 	Skip     bool   `json:"skip,omitempty"`
 	FailAt   string `json:"fail_at,omitempty"`
+	// which associations the operation is told to save: "" (default), "select" (Select("Name", <rel>)),
+	// "omitelems" (Omit("<rel>.*"): link the elements, do not upsert them), "omitrel" (Omit(<rel>): the relation is not saved)
+	Sel string `json:"sel,omitempty"`
 }
 
 type c13r6Obs struct {
@@ -317,6 +323,14 @@ func c13r6Run(c c13r6Case) (obs c13r6Obs) {
 	if c.Skip {
 		h = h.Session(&gorm.Session{SkipHooks: true})
 	}
+	switch c.Sel {
+	case "select":
+		h = h.Select("Name", v.Field)
+	case "omitelems":
+		h = h.Omit(v.Field + ".*")
+	case "omitrel":
+		h = h.Omit(v.Field)
+	}
 	var owners []*C13r6Owner
 	var opErr error
 	func() {
@@ -337,6 +351,13 @@ func c13r6Run(c c13r6Case) (obs c13r6Obs) {
 			setElems(&os[1], mkElems("m"))
 			owners = []*C13r6Owner{&os[0], &os[1]}
 			opErr = h.Create(&os).Error
+		case "createbatches":
+			os := []*C13r6Owner{{Name: "a"}, {Name: "b"}, {Name: "c"}}
+			setElems(os[0], mkElems("n"))
+			setElems(os[1], mkElems("m"))
+			setElems(os[2], mkElems("l"))
+			owners = os
+			opErr = h.CreateInBatches(&os, 2).Error
 		case "createptrs":
 			os := []*C13r6Owner{{Name: "a"}, {Name: "b"}}
 			setElems(os[0], mkElems("n"))
@@ -417,6 +438,9 @@ func c13r6Run(c c13r6Case) (obs c13r6Obs) {
 		}
 	}
 	sort.Strings(obs.Expect)
+	if c.Sel == "omitrel" {
+		obs.Expect = nil
+	}
 	obs.After = c13r6Dump(db, rec)
 	return
 }
@@ -427,6 +451,7 @@ var c13r6IsCreateHook = map[string]bool{"BeforeSave": true, "BeforeCreate": true
 func c13r6Oracle(c c13r6Case, obs c13r6Obs) string {
 	v := c13r6Variants[c.Variant]
 	assoc := c.Op == "append" || c.Op == "replace"
+	batches := c.Op == "createbatches" // a sequence of creates inside one transaction: phases are per batch
 	if strings.HasPrefix(obs.Err, "PANIC") {
 		return obs.Err
 	}
@@ -444,6 +469,9 @@ func c13r6Oracle(c c13r6Case, obs c13r6Obs) string {
 		if e.Kind == "link" && !c13r6IsCreateHook[e.Hook] {
 			continue // latitude: delete hooks on the blank join value (Replace)
 		}
+		if e.Kind == "tag" && batches {
+			continue // latitude: every batch is a create of its own; the batches hold distinct in-memory copies of a keyed element
+		}
 		count[e.Kind+"/"+e.Hook+"/"+e.Rec]++
 	}
 	for k, n := range count {
@@ -455,7 +483,7 @@ func c13r6Oracle(c c13r6Case, obs c13r6Obs) string {
 		if obs.Err != "" {
 			return "unexpected error: " + obs.Err
 		}
-		if len(obs.Expect) == 0 {
+		if len(obs.Expect) == 0 && c.Sel != "omitrel" {
 			return "no join record expected (in-memory keys missing after the operation)"
 		}
 		exp := map[string]bool{}
@@ -484,7 +512,7 @@ func c13r6Oracle(c c13r6Case, obs c13r6Obs) string {
 			}
 			if strings.HasPrefix(e.Hook, "After") {
 				seenAfter = true
-			} else if seenAfter {
+			} else if seenAfter && !batches {
 				return "a join-record before-hook fired after a join-record after-hook"
 			}
 		}
@@ -547,7 +575,7 @@ func c13r6Oracle(c c13r6Case, obs c13r6Obs) string {
 			return fmt.Sprintf("owner hook %s/%s (a later phase of the operation) ran after %s failed", e.Hook, e.Rec, c.FailAt)
 		}
 	}
-	if strings.HasPrefix(fh, "Before") && obs.LinkSQL > 0 {
+	if strings.HasPrefix(fh, "Before") && obs.LinkSQL > 0 && !batches {
 		return "the join-table INSERT was sent although a before-hook of a join record failed"
 	}
 	if !assoc && strings.Join(obs.Before, "\n") != strings.Join(obs.After, "\n") {
@@ -569,6 +597,7 @@ func c13r6Judge(r *Result, c c13r6Case) c13r6Obs {
 	r.H("r6.op", c.Op)
 	r.H("r6.variant", c.Variant)
 	r.H("r6.ctx", "ctx:"+c.Ctx)
+	r.H("r6.sel", "sel:"+c.Sel)
 	r.H("r6.k/existing", fmt.Sprint(c.K, "/", c.Existing))
 	if v := c13r6Oracle(c, obs); v != "" {
 		r.Violate(Violation{Kind: "e2e", Suite: "joinmodel", Input: c, Observed: obs, Expected: v})
@@ -583,7 +612,7 @@ func c13r6Suite(r *Result, rng *rand.Rand, tier string) {
 	}
 	n := 0
 	for _, variant := range []string{"plain", "soft", "ptr"} {
-		for _, op := range []string{"create", "createvals", "createptrs", "save", "updates", "updatesfsa", "append", "replace"} {
+		for _, op := range []string{"create", "createvals", "createptrs", "createbatches", "save", "updates", "updatesfsa", "append", "replace"} {
 			for k := 1; k <= maxK; k++ {
 				for ex := 0; ex <= k; ex++ {
 					if ex > 1 && ex < k {
@@ -593,7 +622,15 @@ func c13r6Suite(r *Result, rng *rand.Rand, tier string) {
 						if expired() {
 							return
 						}
-						c := c13r6Case{Variant: variant, Op: op, K: k, Existing: ex, Ctx: ctx}
+						sel := ""
+						if op != "append" && op != "replace" {
+							sels := []string{"", "", "select", "omitrel"}
+							if ex == k {
+								sels = append(sels, "omitelems")
+							}
+							sel = sels[rng.Intn(len(sels))]
+						}
+						c := c13r6Case{Variant: variant, Op: op, K: k, Existing: ex, Ctx: ctx, Sel: sel}
 						obs := c13r6Judge(r, c)
 						if n%37 == 0 {
 							r.Sample(map[string]interface{}{"input": c, "observed": obs})
